@@ -47,7 +47,8 @@ def history_strategy():
             alt = list(src)
             if src[0] == "nnx":
                 f = draw(st.integers(1, 4))
-                alt[f] = {1: 1 - src[1], 2: 3.0 - src[2], 3: "relu" if src[3] == "tanh" else "tanh", 4: 4.0 - src[4]}[f]
+                alt[f] = {1: 1 - src[1], 2: 3.0 - src[2], 3: "relu" if src[3] == "tanh" else "tanh",
+                          4: {-1.0: -2.0, -2.0: -1.0}.get(src[4], 4.0 - src[4])}[f]
             elif src[0] == "eqx":
                 f = draw(st.integers(1, 2))
                 alt[f] = {1: 1 - src[1], 2: 3 - src[2]}[f]
@@ -55,7 +56,7 @@ def history_strategy():
                 f = draw(st.integers(1, 2))
                 alt[f] = {1: 1 - src[1], 2: "mul" if src[2] == "add" else "add"}[f]
             elif src[0] == "fn":
-                alt[1] = -src[1] if draw(st.booleans()) else src[1]
+                alt[1] = {-1.0: -2.0, -2.0: -1.0}.get(src[1], -src[1]) if draw(st.booleans()) else src[1]
                 if len(alt) > 2 and alt[1] == src[1]:
                     alt[2] = "half" if src[2] == "full" else "full"
             h.insert(draw(st.integers(0, len(h))), alt)
